@@ -23,8 +23,8 @@ func init() {
 		Assumptions: []string{"VerifRetryObserve swaps package-level variables, so scenarios run one at a time in their child process", "the distribution of the random slot is not checked, only its range (max slot per k is reported)"},
 		Families: []core.Family{
 			{Name: "scripted", N: core.TierN(4, 4), Solo: true, Run: c18Scripted},
-			{Name: "random-long", N: core.TierN(60, 600), Batch: 5, Run: c18RandomLong},
-			{Name: "real-wait", N: core.TierN(24, 120), Batch: 4, Run: c18RealWait},
+			{Name: "random-long", N: core.TierN(60, 2400), Batch: 5, Run: c18RandomLong},
+			{Name: "real-wait", N: core.TierN(24, 480), Batch: 4, Run: c18RealWait},
 		},
 	})
 }
